@@ -21,7 +21,7 @@ RULE = ("E1: (a,b) 10 codes x all option subsets of size <= 3 over 22 option ite
         "of ciphertext and OSCORE option, field-level edits (PIV +-1, PIV length, KID, KID context, flag bits), each followed by the genuine "
         "message on the same recipient; foreign contexts (other secret / salt / ID context, absent vs empty ID context), over "
         "sender/recipient ID lengths 0-7 x ID context {none, empty, 8 bytes} x 9 sequence numbers up to 2^40-2 (x 5 algorithms in the "
-        "thorough tier); distinct = distinct (family, shape, outcome)")
+        "thorough tier; two configurations per algorithm in the quick tier); (e) the 4.01 + Echo challenge after a loss of replay state never re-uses a nonce; distinct = distinct (family, shape, outcome)")
 ASSUMPTIONS = [
     "cbor2 / cryptography / filelock are the stand-ins of /verif/shims (OpenSSL libcrypto through ctypes), bound to RFC 3610, NIST GCM, "
     "RFC 8439, RFC 5869, RFC 8949 and RFC 8613 appendix C vectors at start-up; nothing is claimed about the real packages",
@@ -423,8 +423,56 @@ def tamper_response(res, cl, sv, rid_cl, rid_sv, base, full):
             att(mutated(data, new_option=ov), dict(base2, edit=name), "edit-" + name, strict=strict)
 
 
+def echo_challenge(res, alg):
+    """Confidentiality across a loss of replay state: the server answered request R (re-using the request's nonce); its replay window
+    is then lost (uninitialised, Echo recovery armed); R arrives again and is answered by a protected 4.01 + Echo.  Every
+    encryption under the server's sender key must use a nonce of its own - two plaintexts under one (key, nonce) give away their XOR."""
+    res.evaluations += 1
+    case = {"family": "echo-challenge", "alg": alg}
+    cl, sv = make(b"\x01", b"\x02", None, alg), make(b"\x02", b"\x01", None, alg)
+    sv.echo_recovery = b"echo-val"
+    used = []
+    real = sv.alg_aead
+
+    class Logged(type(real)):
+        def encrypt(self_, plaintext, aad, key, iv):
+            if key == sv.sender_key:
+                used.append((bytes(iv), bytes(plaintext)))
+            return real.encrypt(plaintext, aad, key, iv)
+    Logged.__name__ = type(real).__name__
+    sv.alg_aead = Logged()
+    try:
+        outer, crid = cl.protect(Message(code=codes.GET, uri_path=["door"]))
+        w, data = wire(outer)
+        _, srid = sv.unprotect(w)
+        sv.protect(Message(code=codes.CONTENT, payload=MARK + b" door code"), request_id=srid)
+        # state lost
+        sv.recipient_replay_window = o.ReplayWindow(32, lambda: None)
+        try:
+            sv.unprotect(Message.decode(data))
+            res.violate(Violation("accepted-while-state-lost", "ReplayErrorWithEcho", "accepted", "oscore.py:unprotect", case, key="echo:accepted"))
+            return
+        except o.ReplayErrorWithEcho as e:
+            e.to_message()
+        except o.ProtectionInvalid:
+            pass        # refusing outright is fine too
+    except Exception as e:
+        res.violate(Violation("roundtrip-raises", "protect/unprotect succeed", core.exc_desc(e), core.site_of(e), case, key="echo:" + type(e).__name__))
+        return
+    nonces = [n for n, _ in used]
+    if len(set(nonces)) != len(nonces):
+        res.violate(Violation("nonce-reused-across-state-loss", "every encryption under the sender key has its own nonce",
+                              [n.hex() for n in nonces], "oscore.py:unprotect (can_reuse_nonce)", case, key="echo:nonce"))
+    res.traces += 1
+    res.signatures.add(("echo-challenge", alg, len(used)))
+    res.outcomes.add(("echo", len(used)))
+
+
 SSNS = [0, 1, 255, 256, 65535, 65536, 2 ** 24, 2 ** 32, 2 ** 40 - 2]
-ALGS = ["AES-CCM-16-64-128", "AES-CCM-16-128-128", "AES-CCM-64-64-128", "A128GCM", "ChaCha20/Poly1305"]
+ALGS = ["AES-CCM-16-64-128", "AES-CCM-16-128-128", "AES-CCM-64-64-128", "A128GCM", "ChaCha20/Poly1305",
+        # the rest of the AEAD algorithms the library registers (two configurations each in both tiers)
+        "AES-CCM-16-64-256", "AES-CCM-64-64-256", "AES-CCM-16-128-256", "AES-CCM-64-128-128", "AES-CCM-64-128-256", "A192GCM", "A256GCM"]
+FULL_ALGS = 5     # the first five get the complete ID-length x ID-context x sequence-number grid in the thorough tier
 
 
 def job(arg):
@@ -446,10 +494,17 @@ def job(arg):
     elif kind == "binding":
         binding(res, False)
         binding(res, True)
+        for alg in ALGS:
+            echo_challenge(res, alg)
+        # every algorithm sees at least one complete tampering pass, also in the quick tier
+        for alg in ALGS[1:]:
+            maxid = o.algorithms[alg].iv_bytes - 6
+            tamper(res, 1, min(2, maxid), None, alg, 1, full=False)
+            tamper(res, 0, 1, b"8bytectx", alg, 256, full=False)
         res.sample({"pairing": "response i against request j, all 9"})
     elif kind == "tamper":
         sidlen = item
-        algs = ALGS if tier == "thorough" else ALGS[:1]
+        algs = ALGS[:FULL_ALGS] if tier == "thorough" else ALGS[:1]
         for alg in algs:
             maxid = o.algorithms[alg].iv_bytes - 6
             for ridlen in range(0, min(7, maxid) + 1):
@@ -474,7 +529,7 @@ def run(tier, seed, jobs):
     work += [("tamper", n, tier) for n in range(0, 8)]
     res = core.prun(job, work, jobs)
     res.merge(pre)
-    res.scenarios["space"] = {"option_items": len(OPTION_ITEMS), "codes": len(CODES), "ssns": len(SSNS), "algorithms": len(ALGS) if tier == "thorough" else 1}
+    res.scenarios["space"] = {"option_items": len(OPTION_ITEMS), "codes": len(CODES), "ssns": len(SSNS), "algorithms_full_grid": FULL_ALGS if tier == "thorough" else 1, "algorithms": len(ALGS)}
     return res
 
 
@@ -489,6 +544,8 @@ def replay(case, scenario, seed):
         roundtrip(res, codes.Code(case["code"]), items, case["payload"])
     elif fam == "binding":
         binding(res, case["own_piv"])
+    elif fam == "echo-challenge":
+        echo_challenge(res, case["alg"])
     else:
         tamper(res, len(case["sid"]), len(case["rid"]), case["idc"], case["alg"], case["ssn"], True)
     return [v for v, n in res.violations.values()]
